@@ -287,6 +287,9 @@ func (e *Engine) verifyFunction(fn *ssa.Function, safety bool) (fr *Frame, err e
 		f.vals[fv] = bindings[i]
 	}
 	f.entry = st.clone()
+	if safety {
+		e.assumeTypeInvs(f, st)
+	}
 	c := f.contract
 	if c != nil {
 		env := f.requiresEnv(st)
